@@ -8,6 +8,7 @@
 //! Set C03_STATS=1 to get the tx-scenario feature frequencies on stderr.
 #![allow(deprecated)]
 #![allow(dead_code)]
+#![allow(unexpected_cfgs)]
 use cardano_serialization_lib::*;
 use csl_verif_harness::util::*;
 use std::collections::BTreeMap;
